@@ -1,5 +1,9 @@
 //! sigverif: property-based / schedule-owning verification harness for vorner/signal-hook.
 #![allow(dead_code)]
+#[cfg(feature = "adapters")]
+pub mod adapters;
+#[cfg(not(feature = "adapters"))]
+#[path = "adapters_stub.rs"]
 pub mod adapters;
 pub mod alloc;
 pub mod c03;
